@@ -122,6 +122,46 @@ func runC09(r *Run) {
 			r.check(hit == nil, "getOffer$callback:q0↛candidate", r.pos(br.If), "from quality == 0 the range is not appended to the candidates", "a range with q=0 can still be added to the candidates and select an offer")
 		}
 		r.atLeast("quality == 0 tests", n, 1)
+		// the weight is recognised whatever the letter case of its name (parameter names are case-insensitive, and the
+		// literal "q=" of the grammar matches either case): the visitor that parses it compares the name's byte with
+		// both 'q' and 'Q', or folds it first
+		var visitor *ssa.Function
+		for _, a := range anonFuncsDeep(f) {
+			if a.Parent() != f && len(callsMatching(a, false, nameHasSuffix("fasthttp.ParseUfloat"))) > 0 {
+				visitor = a
+			}
+		}
+		r.need(visitor != nil, "the parameter visitor that parses the weight")
+		has := map[int64]bool{}
+		foldsName := false
+		for _, b := range visitor.Blocks {
+			for _, in := range b.Instrs {
+				switch x := in.(type) {
+				case *ssa.BinOp:
+					if x.Op == token.EQL || x.Op == token.NEQ {
+						for _, o := range []ssa.Value{x.X, x.Y} {
+							if k, ok := constInt(asConst(o)); ok && (k == 'q' || k == 'Q') {
+								has[k] = true
+							}
+						}
+					}
+					if x.Op == token.OR {
+						if k, ok := constInt(asConst(x.Y)); ok && k == 0x20 {
+							foldsName = true
+						}
+					}
+				case *ssa.Call:
+					n := calleeName(&x.Call)
+					if strings.HasSuffix(n, "EqualFold") || strings.Contains(n, "ToLower") && len(x.Call.Args) > 0 {
+						if _, isParam := stripValue(x.Call.Args[0]).(*ssa.Parameter); isParam || strings.HasSuffix(n, "EqualFold") {
+							foldsName = true
+						}
+					}
+				}
+			}
+		}
+		r.check(foldsName || (has['q'] && has['Q']), "getOffer$visitor:weight-name-any-case", r.fpos(visitor), "the weight's name is matched in either letter case",
+			"the weight is recognised only when its name is a lower-case q: in `text/html;level=1;Q=0` the Q becomes a media-type parameter the offer must carry, the weight stays 1 — a refused range is not refused, and a range with Q=0.5 selects nothing")
 	})
 
 	r.rule("R3", "preference order: insertion condition ≡ 'strictly worse' on all 81 sign vectors (E6)", func() {
